@@ -1,3 +1,5 @@
 import Sqljson.Audit
 import Sqljson.Props.C05
+import Sqljson.Props.GenFacts
 #audit_ns C05 Sqljson.C05
+#audit C05 [Sqljson.GenFacts.raise_unchanged]
